@@ -30,6 +30,14 @@ Separate Extraction
   Dot.of_regex_with
   Dot.pinned
   Dot.patched
+  Dot.mkvariant
+  Dot.escape_dot
+  Dot.escape_quotes
+  Dot.known_labels
+  Dot.known_subacc
+  Dot.known_phantom
+  Dot.known_rx
+  DotSpec.sub_ids
   DotRead.read
   DotRead.render_label
   DotSpec.graph_of_dfa
